@@ -16,7 +16,7 @@ RULE = (
     "the arrival instants of <= 2 (quick) / <= 3 (thorough) events on every grid point of [0, 2.5 s], each event matching or not "
     "(another value, or an event on another element that the wait's filter excludes; two events at one instant = one read chunk), "
     "x timeout in {none} + grid (exact ties with an arrival skipped) x polling {off, (delay, interval) on the grid} x condition "
-    "{expect, initial, check, check that raises on events it is not meant for} x event kind {value, state, definition}; arrivals may carry None; 'concurrent' runs two waits with different conditions on one client (the getProperties seen must be the multiset union of "
+    "{expect, initial, check, check that raises on events it is not meant for} x event kind {value, state, definition}; the watched names plain or with brackets / blanks / `*` / `?` (ordinary characters in names); arrivals may carry None; 'concurrent' runs two waits with different conditions on one client (the getProperties seen must be the multiset union of "
     "every polling wait's own schedule); "
     "'fine' draws finer grids and longer bursts with Hypothesis. Oracle (analytic): with the first matching event object in a "
     "probe's log at tm - the wait returns THAT object at loop time tm if timeout is none or tm < timeout, else raises at loop time "
@@ -49,10 +49,23 @@ def harness_matches(cond, kind, new):
     return new in ("Ok", "Busy")
 
 
+# names are opaque: the watched device / property / element may be called `M [tty0]`, `P[1]`, `x[0]` (with siblings `P1`, `x0`)
+NAMESETS = {
+    0: {},
+    1: {"A": "M [tty0]", "P": "P[1]", "Q": "P1", "x": "x[0]", "y": "x0"},
+    2: {"A": "A*", "P": "P?", "Q": "PQ", "x": "*", "y": "xy"},
+}
+_NAMES = {}
+
+
+def _n(s):
+    return _NAMES.get(s, s)
+
+
 def wait_kwargs(cond, kind):
     from indi.client import events
 
-    kw = {"device": "A", "vector": "P"}
+    kw = {"device": _n("A"), "vector": _n("P")}
     if kind == "definition":
         # only a custom check makes sense for an event that carries neither a value nor a state of its own
         kw["event_type"] = events.DefinitionUpdate
@@ -67,7 +80,7 @@ def wait_kwargs(cond, kind):
             kw["check"] = lambda e: e.vector.state in ("Ok", "Busy")
         return kw
     if kind == "value":
-        kw["element"] = "x"
+        kw["element"] = _n("x")
         kw["event_type"] = events.ValueUpdate
         if cond == "expect":
             kw["expect"] = "m1"
@@ -109,16 +122,16 @@ def arrival_message(kind, target, vi):
     from indi.message import one_parts
 
     if kind == "value":
-        name = "x" if target == 0 else "y"
-        return message.SetTextVector(device="A", name="P", state="Idle", children=(one_parts.OneText(name=name, value=VALUES[vi % len(VALUES)]),))
-    vec = "P" if target == 0 else "Q"
+        name = _n("x") if target == 0 else _n("y")
+        return message.SetTextVector(device=_n("A"), name=_n("P"), state="Idle", children=(one_parts.OneText(name=name, value=VALUES[vi % len(VALUES)]),))
+    vec = _n("P") if target == 0 else _n("Q")
     if kind == "definition":
         # the property is defined again (a server does that in reply to every getProperties), with some state
         from indi.message import def_parts
 
-        return message.DefTextVector(device="A", name=vec, state=STATEVALS[vi % 4], perm="rw", children=(
-            def_parts.DefText(name="x", value="n0"), def_parts.DefText(name="y", value="n0")))
-    return message.SetTextVector(device="A", name=vec, state=STATEVALS[vi % 4], children=())
+        return message.DefTextVector(device=_n("A"), name=vec, state=STATEVALS[vi % 4], perm="rw", children=(
+            def_parts.DefText(name=_n("x"), value="n0"), def_parts.DefText(name=_n("y"), value="n0")))
+    return message.SetTextVector(device=_n("A"), name=vec, state=STATEVALS[vi % 4], children=())
 
 
 def run_case(case):
@@ -131,6 +144,8 @@ def run_case(case):
 
     unit = case.get("unit", Q)
     kind = case["kind"]
+    _NAMES.clear()
+    _NAMES.update(NAMESETS[case.get("names", 0)])
     loop = net.new_loop()
     try:
         sent = []
@@ -140,9 +155,9 @@ def run_case(case):
                 sent.append((loop.time(), msg))
 
         client = C()
-        for vec in ("P", "Q"):
-            client.process_message(message.DefTextVector(device="A", name=vec, state="Idle", perm="rw", children=(
-                def_parts.DefText(name="x", value="n0"), def_parts.DefText(name="y", value="n0"))))
+        for vec in (_n("P"), _n("Q")):
+            client.process_message(message.DefTextVector(device=_n("A"), name=vec, state="Idle", perm="rw", children=(
+                def_parts.DefText(name=_n("x"), value="n0"), def_parts.DefText(name=_n("y"), value="n0"))))
         sent.clear()
         probe = []
         def_states = {}
@@ -195,19 +210,19 @@ def run_case(case):
             nonmatch_before = False
             for t, e in probe:
                 if kind == "definition":
-                    if not isinstance(e, events.DefinitionUpdate) or e.vector.name != "P":
+                    if not isinstance(e, events.DefinitionUpdate) or e.vector.name != _n("P"):
                         if first is None:
                             nonmatch_before = True
                         continue
                     new = def_states.get(id(e))
                 elif kind == "value":
-                    if not isinstance(e, events.ValueUpdate) or e.element.name != "x" or e.vector.name != "P":
+                    if not isinstance(e, events.ValueUpdate) or e.element.name != _n("x") or e.vector.name != _n("P"):
                         if first is None:
                             nonmatch_before = True
                         continue
                     new = e.new_value
                 else:
-                    if not isinstance(e, events.StateUpdate) or e.vector.name != "P":
+                    if not isinstance(e, events.StateUpdate) or e.vector.name != _n("P"):
                         if first is None:
                             nonmatch_before = True
                         continue
@@ -315,7 +330,7 @@ def check_block(case):
             if to is not None and to in times:
                 continue  # exact tie with an arrival: excluded by the statement
             for poll in polls:
-                sub = {"kind": case["kind"], "waits": [{"cond": case["cond"], "timeout": to, "poll": poll}], "arrivals": arrivals}
+                sub = {"kind": case["kind"], "waits": [{"cond": case["cond"], "timeout": to, "poll": poll}], "arrivals": arrivals, "names": case.get("names", 0)}
                 try:
                     r = run_case(sub)
                 except Failure as f:
@@ -343,6 +358,11 @@ def grid_blocks(tier):
             for k in range(0, maxev + 1):
                 for times in itertools.combinations_with_replacement(range(0, npts + 1), k):
                     yield {"kind": kind, "cond": cond, "arrival_times": list(times), "n_points": npts}
+    for names in (1, 2):
+        for kind in ("value", "state"):
+            for cond in ("expect", "check"):
+                for times in ([], [2], [1, 4]):
+                    yield {"kind": kind, "cond": cond, "arrival_times": times, "n_points": npts, "names": names}
 
 
 arrival_st = st.tuples(st.integers(0, 24), st.sampled_from([0, 0, 0, 1]), st.integers(0, 5)).map(list)
@@ -371,7 +391,7 @@ def free_case(draw, nwaits):
         for w in waits:
             if w["cond"] not in ("check", "check-raises"):
                 w["cond"] = "check"
-    return {"kind": kind, "waits": waits, "arrivals": sorted(arrivals), "unit": unit}
+    return {"kind": kind, "waits": waits, "arrivals": sorted(arrivals), "unit": unit, "names": draw(st.sampled_from([0, 0, 1, 2]))}
 
 
 def run(ctx):
